@@ -10,7 +10,8 @@ REAL = ("real (instrumented): internal/run, internal/workers, internal/progress,
         "internal/metrics, internal/run/views, internal/ui, internal/log, pkg/f1/testing, pkg/f1 (CombineScenarios); "
         "real (uninstrumented): prometheus client, cobra/pflag, slog, yaml, context, Go runtime timers under synctest")
 STUB = ("stubbed: xtime.NanoTime -> bubble clock; math/rand -> choice stream; sync.Mutex/RWMutex -> scheduler-aware model; "
-        "scenario code, signal delivery (ctx cancel), output writers (recording), log file (/dev/null), push gateway (disabled)")
+        "os/signal -> simulator-delivered SIGINT (public entry point; context cancellation for the other drivers); "
+        "scenario code, output writers (recording), log file (/dev/null), push gateway (disabled)")
 
 # id -> (harness summary, technique, level text, rule, quick budget, thorough budget)
 CHECKS = {
